@@ -87,6 +87,26 @@ func init() {
 			{Name: "allocator result folded into 32 bits on the way out", ExpectRule: "C38.R5", ExpectKey: "identifier source", Edits: []Edit{
 				{File: "internal/peer/connection.go", Old: "\treturn c.streamAlloc.Next()", New: "\treturn c.streamAlloc.Next() & 0xffffffff"},
 			}},
+			{Name: "CompareAndSwap result ignored: the loaded value is returned even when the swap lost", ExpectRule: "C38.R1", ExpectKey: "CompareAndSwap", Edits: []Edit{
+				{File: "internal/transport/transport.go", Old: "return a.next.Add(2) - 2", New: "id := a.next.Load()\n\ta.next.CompareAndSwap(id, id+2)\n\treturn id"},
+			}},
+			{Name: "CompareAndSwap loop advancing by an odd step", ExpectRule: "C38.R2", ExpectKey: "stride", Edits: []Edit{
+				{File: "internal/transport/transport.go", Old: "return a.next.Add(2) - 2", New: "for {\n\t\tid := a.next.Load()\n\t\tif a.next.CompareAndSwap(id, id+1) {\n\t\t\treturn id\n\t\t}\n\t}"},
+			}},
+			{Name: "rewrite: lock-free CompareAndSwap retry loop instead of Add", Edits: []Edit{
+				{File: "internal/transport/transport.go", Old: "return a.next.Add(2) - 2", New: "for {\n\t\tid := a.next.Load()\n\t\tif !a.next.CompareAndSwap(id, id+2) {\n\t\t\tcontinue\n\t\t}\n\t\treturn id\n\t}"},
+			}},
+			{Name: "rewrite: start value from a switch helper with named constants; Add result in a local", Edits: []Edit{
+				{File: "internal/transport/transport.go", Old: "\tstart := uint64(2) // even for listener\n\tif isDialer {\n\t\tstart = 1 // odd for dialer\n\t}", New: "\tstart := firstID(isDialer)"},
+				{File: "internal/transport/transport.go", Old: "// NewStreamIDAllocator creates a new allocator.", New: "const (\n\tdialerFirst   uint64 = 1\n\tlistenerFirst uint64 = 2\n\tidStride      uint64 = 2\n)\n\nfunc firstID(dialer bool) uint64 {\n\tswitch dialer {\n\tcase true:\n\t\treturn dialerFirst\n\tdefault:\n\t\treturn listenerFirst\n\t}\n}\n\n// NewStreamIDAllocator creates a new allocator."},
+				{File: "internal/transport/transport.go", Old: "return a.next.Add(2) - 2", New: "advanced := a.next.Add(idStride)\n\treturn advanced - idStride"},
+			}},
+			{Name: "rewrite: constructor with new(), inverted role test and early return; allocator made by a wrapper after the literal", Edits: []Edit{
+				{File: "internal/transport/transport.go", Old: "\tstart := uint64(2) // even for listener\n\tif isDialer {\n\t\tstart = 1 // odd for dialer\n\t}\n\ta := &StreamIDAllocator{\n\t\tisDialer: isDialer,\n\t}\n\ta.next.Store(start)\n\treturn a", New: "\ta := new(StreamIDAllocator)\n\ta.isDialer = isDialer\n\tif !isDialer {\n\t\ta.next.Store(2)\n\t\treturn a\n\t}\n\ta.next.Store(1)\n\treturn a"},
+				{File: "internal/peer/connection.go", Old: "\t\tstreamAlloc:  transport.NewStreamIDAllocator(conn.IsDialer()),\n", New: ""},
+				{File: "internal/peer/connection.go", Old: "\tc.state.Store(int32(StateHandshaking))\n", New: "\tc.streamAlloc = newStreamAllocator(conn)\n\tc.state.Store(int32(StateHandshaking))\n"},
+				{File: "internal/peer/connection.go", Old: "// NextStreamID returns the next available stream ID.", New: "func newStreamAllocator(conn transport.PeerConn) *transport.StreamIDAllocator {\n\treturn transport.NewStreamIDAllocator(conn.IsDialer())\n}\n\n// NextStreamID returns the next available stream ID."},
+			}},
 			{Name: "rewrite: result through locals, switch on the role, role in a local, zero-value accept flag", Edits: []Edit{
 				{File: "internal/transport/transport.go", Old: "return a.next.Add(2) - 2", New: "const stride = 2\n\tafter := a.next.Add(stride)\n\tid := after - stride\n\treturn id"},
 				{File: "internal/transport/transport.go", Old: "\tstart := uint64(2) // even for listener\n\tif isDialer {\n\t\tstart = 1 // odd for dialer\n\t}", New: "\tvar start uint64\n\tswitch isDialer {\n\tcase true:\n\t\tstart = 1\n\tdefault:\n\t\tstart = 2\n\t}"},
@@ -110,7 +130,9 @@ type c38Ctx struct {
 	alloc    *types.Named  // the type that holds the counter
 	counter  *types.Var    // its atomic counter field
 	ctors    []*ssa.Function
-	ctorSite map[*ssa.Function]*ssa.Call // the Store(start) call per constructor
+	ctorSite map[*ssa.Function][]*ssa.Call // the Store(start) call(s) per constructor
+	casOld   ssa.Value                     // CAS-loop idiom: the loaded value that a successful CompareAndSwap claims
+	casCall  *ssa.Call
 	next     *ssa.Function
 	addCall  *ssa.Call
 	stride   int64
@@ -135,7 +157,7 @@ func runC38(p *kit.Program, r *kit.Report) {
 	r.Rule("C38.R3", "O3: the allocating method performs exactly one atomic read-modify-write on the counter and returns that operation's result minus 0 or minus the stride")
 	r.Rule("C38.R4", "O4: every allocator is constructed with PeerConn.IsDialer() of the wrapped transport connection; every PeerConn implementation's role flag is constant, true exactly where a Transport.Dial path constructs it and false where a Listener path constructs it, and never changes afterwards")
 	r.Rule("C38.R5", "O5: Connection.NextStreamID returns, unchanged and on every path, the result of one allocating method on one allocator owned by the connection (or of one atomic counter of the connection itself); every allocator is created for exactly one owner object (stored once into a field of a freshly allocated struct, never replaced) and identifiers are drawn only through that field")
-	cx := &c38Ctx{p: p, r: r, ctorSite: map[*ssa.Function]*ssa.Call{}}
+	cx := &c38Ctx{p: p, r: r, ctorSite: map[*ssa.Function][]*ssa.Call{}}
 	cx.peerConn = c38Iface(p.NamedType("internal/transport", "PeerConn"))
 	cx.entry = p.Func("internal/peer", "Connection", "NextStreamID")
 	if !r.Require(cx.entry != nil && cx.entry.Blocks != nil && len(cx.entry.Params) >= 1, "anchor-unresolved: method (*peer.Connection).NextStreamID (the agent's source of stream identifiers)") {
@@ -362,12 +384,15 @@ func (cx *c38Ctx) accessSet() {
 				"Store initialises a freshly allocated allocator (constructor)",
 				"the counter of an existing allocator is overwritten by Store: identifiers already handed out are handed out again")
 			if call, isCall := s.call.(*ssa.Call); fresh && isCall {
-				if _, dup := cx.ctorSite[s.fn]; dup {
-					r.Violation("C38.R1", key+" second initialisation", pos, "the constructor %s stores the counter twice: the start value in force is not a single role-selected constant", fname)
-				} else {
-					cx.ctors = append(cx.ctors, s.fn)
-					cx.ctorSite[s.fn] = call
+				for _, prev := range cx.ctorSite[s.fn] {
+					if kit.CanReach(prev, call) || kit.CanReach(call, prev) {
+						r.Violation("C38.R1", key+" second initialisation", pos, "the constructor %s stores the counter twice on one path: the start value in force is not a single role-selected constant", fname)
+					}
 				}
+				if len(cx.ctorSite[s.fn]) == 0 {
+					cx.ctors = append(cx.ctors, s.fn)
+				}
+				cx.ctorSite[s.fn] = append(cx.ctorSite[s.fn], call)
 			}
 		case "Add":
 			rmws = append(rmws, s)
@@ -384,6 +409,17 @@ func (cx *c38Ctx) accessSet() {
 					cx.addCall, _ = s.call.(*ssa.Call)
 				}
 			}
+		case "CompareAndSwap":
+			// a load / CompareAndSwap(old, old+k) retry loop that returns old is an atomic fetch-and-add
+			okCas, why := false, "it is not inside the allocating method"
+			if call, isCall := s.call.(*ssa.Call); isCall && s.fn == cx.next && cx.casCall == nil {
+				okCas, why = cx.casLoop(call)
+			} else if s.fn == cx.next {
+				why = "the allocating method contains more than one CompareAndSwap"
+			}
+			r.Decide(okCas, "C38.R1", key, pos,
+				"CompareAndSwap(old, old+k) on a freshly loaded old value whose success is the only way to return old: an atomic fetch-and-add",
+				"the counter is modified by a CompareAndSwap that is not the fetch-and-add retry idiom ("+why+"): the value sequence is no longer start + n*stride with each value handed to one caller")
 		default:
 			r.Violation("C38.R1", key, pos, "the counter is modified by %s, which is neither the constructor's Store nor the allocating Add: the value sequence is no longer start + n*stride", s.method)
 		}
@@ -441,9 +477,69 @@ func c38SameNamedValue(t types.Type, n *types.Named) bool {
 
 // ---------- O2
 
+// casLoop validates the lock-free fetch-and-add idiom in the allocating method:
+//
+//	for { old := ctr.Load(); if ctr.CompareAndSwap(old, old+k) { return old } }
+//
+// old must be a Load of the same counter, the new value old plus a constant, and every return
+// of the method must yield old under the guard "this CompareAndSwap succeeded".
+func (cx *c38Ctx) casLoop(cas *ssa.Call) (bool, string) {
+	fn := cx.next
+	old := kit.Arg(cas, 0)
+	ld, ok := old.(*ssa.Call)
+	if !ok {
+		return false, "the expected value is not the result of a Load of the counter"
+	}
+	if cal := kit.CalleeOf(ld); cal.Pkg != "sync/atomic" || cal.Name != "Load" {
+		return false, "the expected value is not the result of a Load of the counter"
+	}
+	if fa, ok := kit.Receiver(ld).(*ssa.FieldAddr); !ok || kit.FieldOfAddr(fa) != cx.counter || fa.X != ssa.Value(fn.Params[0]) {
+		return false, "the expected value is loaded from something other than the receiver's counter"
+	}
+	lin := kit.LinearOf(kit.Arg(cas, 1))
+	if len(lin.Terms) != 1 || lin.Coef(old) != 1 {
+		return false, "the new value is not the loaded value plus a constant"
+	}
+	n := 0
+	for _, ret := range kit.Returns(fn) {
+		if ret.Block() == fn.Recover {
+			continue
+		}
+		n++
+		won := false
+		for _, g := range kit.GuardsOf(ret) {
+			cond, pol := g.Cond, g.Polarity
+			for {
+				u, isNot := cond.(*ssa.UnOp)
+				if !isNot || u.Op != token.NOT {
+					break
+				}
+				cond, pol = u.X, !pol
+			}
+			if cond == ssa.Value(cas) && pol {
+				won = true
+			}
+		}
+		if !won {
+			return false, "a return of the method is reachable without this CompareAndSwap having succeeded"
+		}
+	}
+	if n == 0 {
+		return false, "the method never returns"
+	}
+	cx.casCall, cx.casOld, cx.stride = cas, old, lin.Const
+	return true, ""
+}
+
 func (cx *c38Ctx) strideAndStart() {
 	p, r := cx.p, cx.r
 	nname := kit.FuncName(cx.next)
+	if cx.addCall == nil && cx.casCall != nil {
+		k := cx.stride
+		r.Decide(k != 0 && k%2 == 0, "C38.R2", nname+" stride", p.Pos(cx.casCall.Pos()),
+			fmt.Sprintf("stride of the CompareAndSwap loop is the constant %d (non-zero, even)", k),
+			fmt.Sprintf("the CompareAndSwap loop advances the counter by %d, which is not a non-zero even constant: consecutive identifiers change parity and collide with the other end's, or repeat", k))
+	}
 	if cx.addCall != nil {
 		k, isConst := kit.ConstInt(kit.Arg(cx.addCall, 0))
 		cx.stride = k
@@ -480,10 +576,60 @@ func c38RoleParam(ctor *ssa.Function) ssa.Value {
 	return role
 }
 
+// c38Start is one possible start constant together with the role it is selected for.
+type c38Start struct {
+	val     int64
+	isConst bool
+	pol     bool
+	known   bool
+}
+
+// startValues expands the value stored as the start into constants with the role edge that
+// selects each: through phis (edge guards) and through repository helpers that map the role
+// to a constant (their returns are evaluated under guards on the helper's own parameter).
+func (cx *c38Ctx) startValues(v ssa.Value, at ssa.Instruction, isRole func(ssa.Value) bool, depth int) []c38Start {
+	var out []c38Start
+	for _, l := range kit.GuardedLeaves(v, at) {
+		if c, isConst := kit.ConstInt(l.V); isConst {
+			pol, known := c38RolePolarity(l.Guards, isRole)
+			out = append(out, c38Start{c, true, pol, known})
+			continue
+		}
+		call, isCall := kit.Unwrap(l.V).(*ssa.Call)
+		if isCall && depth < 3 {
+			cal := kit.CalleeOf(call)
+			if f := cal.Static; f != nil && f.Blocks != nil && kit.IsRepoPkg(kit.FuncPkgPath(f)) {
+				ridx := -1
+				for i, a := range call.Call.Args {
+					if isRole(a) && i < len(f.Params) {
+						ridx = i
+					}
+				}
+				if ridx >= 0 {
+					prm := ssa.Value(f.Params[ridx])
+					inner := func(x ssa.Value) bool { return x == prm }
+					n := 0
+					for _, ret := range kit.Returns(f) {
+						if ret.Block() == f.Recover || len(ret.Results) == 0 {
+							continue
+						}
+						n++
+						out = append(out, cx.startValues(kit.ReturnResult(ret, 0), ret, inner, depth+1)...)
+					}
+					if n > 0 {
+						continue
+					}
+				}
+			}
+		}
+		out = append(out, c38Start{})
+	}
+	return out
+}
+
 func (cx *c38Ctx) startOf(ctor *ssa.Function) {
 	p, r := cx.p, cx.r
 	cname := kit.FuncName(ctor)
-	site := cx.ctorSite[ctor]
 	role := c38RoleParam(ctor)
 	isRole := func(v ssa.Value) bool {
 		if role != nil && v == role {
@@ -492,32 +638,34 @@ func (cx *c38Ctx) startOf(ctor *ssa.Function) {
 		_, ok := cx.isDialerOf(v)
 		return ok
 	}
-	leaves := kit.GuardedLeaves(kit.Arg(site, 0), site)
-	r.Count("start_value_leaves", len(leaves))
 	sawDial, sawAccept := false, false
-	for i, l := range leaves {
-		key := fmt.Sprintf("%s start value #%d", cname, i+1)
+	i := 0
+	var lastPos string
+	for _, site := range cx.ctorSite[ctor] {
 		pos := p.Pos(site.Pos())
-		c, isConst := kit.ConstInt(l.V)
-		if !isConst {
-			r.Violation("C38.R2", key, pos, "the start value is not a constant on this edge: its parity per role cannot be established, the two ends can allocate the same identifier")
-			continue
-		}
-		pol, known := c38RolePolarity(l.Guards, isRole)
-		switch {
-		case !known:
-			r.Violation("C38.R2", key, pos, "the start constant %d is not selected by the role (the constructor's bool parameter or PeerConn.IsDialer()): both roles can start with the same parity and allocate the same identifiers", c)
-		case pol:
-			sawDial = true
-			r.Decide(c > 0 && c%2 == 1, "C38.R2", key, pos, fmt.Sprintf("dialer start %d is odd", c),
-				fmt.Sprintf("the dialer's start value %d is not odd: both ends allocate even identifiers and collide", c))
-		default:
-			sawAccept = true
-			r.Decide(c > 0 && c%2 == 0, "C38.R2", key, pos, fmt.Sprintf("accepting side start %d is even and non-zero", c),
-				fmt.Sprintf("the accepting side's start value %d is not a non-zero even number: identifier 0 is handed out or both ends allocate odd identifiers", c))
+		lastPos = pos
+		for _, sv := range cx.startValues(kit.Arg(site, 0), site, isRole, 0) {
+			i++
+			key := fmt.Sprintf("%s start value #%d", cname, i)
+			c := sv.val
+			switch {
+			case !sv.isConst:
+				r.Violation("C38.R2", key, pos, "the start value is not a constant on this edge: its parity per role cannot be established, the two ends can allocate the same identifier")
+			case !sv.known:
+				r.Violation("C38.R2", key, pos, "the start constant %d is not selected by the role (the constructor's bool parameter or PeerConn.IsDialer()): both roles can start with the same parity and allocate the same identifiers", c)
+			case sv.pol:
+				sawDial = true
+				r.Decide(c > 0 && c%2 == 1, "C38.R2", key, pos, fmt.Sprintf("dialer start %d is odd", c),
+					fmt.Sprintf("the dialer's start value %d is not odd: both ends allocate even identifiers and collide", c))
+			default:
+				sawAccept = true
+				r.Decide(c > 0 && c%2 == 0, "C38.R2", key, pos, fmt.Sprintf("accepting side start %d is even and non-zero", c),
+					fmt.Sprintf("the accepting side's start value %d is not a non-zero even number: identifier 0 is handed out or both ends allocate odd identifiers", c))
+			}
 		}
 	}
-	r.Decide(sawDial && sawAccept, "C38.R2", cname+" start per role", p.Pos(site.Pos()),
+	r.Count("start_value_leaves", i)
+	r.Decide(sawDial && sawAccept, "C38.R2", cname+" start per role", lastPos,
 		"a start constant is selected on each edge of the role",
 		"the start value does not distinguish the two roles")
 }
@@ -576,6 +724,12 @@ func (cx *c38Ctx) nextShape() {
 			switch cal.Name {
 			case "Add":
 				nRMW++
+			case "CompareAndSwap":
+				if cx.casCall != nil && c == ssa.CallInstruction(cx.casCall) {
+					nRMW++
+				} else {
+					nOther++
+				}
 			case "Load":
 				// a read is harmless by itself; whether the result depends on it is judged below
 			default:
@@ -584,7 +738,7 @@ func (cx *c38Ctx) nextShape() {
 		}
 	}
 	r.Decide(nRMW == 1 && nOther == 0, "C38.R3", nname+" single atomic read-modify-write", p.Pos(cx.next.Pos()),
-		"exactly one Add on the counter, no other modifying operation",
+		"exactly one read-modify-write (Add, or the CompareAndSwap of a fetch-and-add loop) on the counter, no other modifying operation",
 		fmt.Sprintf("the allocating method performs %d Add and %d other modifying atomic operations on the counter: two concurrent calls can observe the same value and return the same identifier", nRMW, nOther))
 	n := 0
 	for _, ret := range kit.Returns(cx.next) {
@@ -595,6 +749,13 @@ func (cx *c38Ctx) nextShape() {
 			n++
 			key := fmt.Sprintf("%s returned value #%d", nname, n)
 			ok, detail := false, "the returned identifier does not derive from the result of the atomic Add"
+			if cx.addCall == nil && cx.casCall != nil {
+				if l == cx.casOld {
+					ok, detail = true, fmt.Sprintf("returns the value claimed by the successful CompareAndSwap (start+(n-1)*%d)", cx.stride)
+				} else {
+					detail = "the returned identifier is not the value claimed by the successful CompareAndSwap"
+				}
+			}
 			if cx.addCall != nil {
 				lin := kit.LinearOf(l)
 				if len(lin.Terms) == 1 && lin.Coef(cx.addCall) == 1 {
@@ -968,29 +1129,57 @@ func (cx *c38Ctx) ownership() {
 		return false
 	}
 	r.Count("allocator_owner_fields", len(owners))
-	isCtor := func(f *ssa.Function) bool {
+	// makers: the constructors, and functions that only return freshly allocated allocators or
+	// the results of other makers (wrappers such as newStreamAllocator(conn))
+	makerMemo := map[*ssa.Function]bool{}
+	var isCtor func(f *ssa.Function) bool
+	isCtor = func(f *ssa.Function) bool {
 		for _, c := range cx.ctors {
 			if c == f {
 				return true
 			}
 		}
-		// a function that only returns freshly allocated allocators makes one, too
 		if f == nil || f.Blocks == nil || f.Signature.Results().Len() != 1 || !c38SameNamed(f.Signature.Results().At(0).Type(), cx.alloc) {
 			return false
 		}
+		if v, done := makerMemo[f]; done {
+			return v
+		}
+		makerMemo[f] = false
 		n := 0
 		for _, ret := range kit.Returns(f) {
 			if ret.Block() == f.Recover {
 				continue
 			}
 			for _, l := range kit.PhiLeaves(kit.ReturnResult(ret, 0)) {
-				if _, fresh := l.(*ssa.Alloc); !fresh {
+				switch x := l.(type) {
+				case *ssa.Alloc:
+				case *ssa.Call:
+					if !isCtor(kit.CalleeOf(x).Static) {
+						return false
+					}
+				default:
 					return false
 				}
 				n++
 			}
 		}
+		makerMemo[f] = n > 0
 		return n > 0
+	}
+	// passThrough: a maker call whose result is only returned by a function that is a maker itself
+	passThrough := func(call *ssa.Call) bool {
+		if !isCtor(call.Parent()) || call.Referrers() == nil {
+			return false
+		}
+		for _, ref := range *call.Referrers() {
+			switch ref.(type) {
+			case *ssa.Return, *ssa.DebugRef, *ssa.Phi:
+			default:
+				return false
+			}
+		}
+		return true
 	}
 	if len(cx.chain) == 0 {
 		// the counter lives in the connection object itself: nothing to own or replace
@@ -1000,13 +1189,22 @@ func (cx *c38Ctx) ownership() {
 
 	// every constructor result goes into exactly one owner field of a fresh object
 	ord := map[string]int{}
-	for _, ctor := range cx.ctors {
+	var makers []*ssa.Function
+	for _, f := range p.RepoFuncs() {
+		if isCtor(f) {
+			makers = append(makers, f)
+		}
+	}
+	for _, ctor := range makers {
 		for _, site := range p.StaticCallers(ctor) {
 			fn := site.Parent()
 			fname := kit.FuncName(fn)
+			call, isCall := site.(*ssa.Call)
+			if isCall && passThrough(call) {
+				continue // ownership is decided where the wrapper's result is used
+			}
 			ord[fname]++
 			key := fmt.Sprintf("%s constructs allocator #%d ownership", fname, ord[fname])
-			call, isCall := site.(*ssa.Call)
 			ok := isCall
 			nStores := 0
 			if isCall && call.Referrers() != nil {
